@@ -10,6 +10,8 @@ Monitors:
 """
 from __future__ import annotations
 
+import re
+
 from vf import astn, fm
 from vf.core import Collector
 from vf.docbase import DocProp, first_line_diff, opts_key, rand_opts
@@ -52,8 +54,12 @@ def nonblank(text: str) -> list[str]:
     return [ln.rstrip() for ln in text.split("\n") if ln.strip(" >\t") != ""]
 
 
+_HEADING_LINE = re.compile(r"^(?:[ >]|[-*+] |\d+[.)] |\[\^[^\]]+\]: )*#")
+
+
 def is_heading_line(ln: str) -> bool:
-    return ln.lstrip(" >").lstrip("-*+0123456789.) ").startswith("#") or ln.lstrip(" >").startswith("#")
+    """An ATX heading line behind any mix of container prefixes (quote markers, list markers, footnote label, indentation)."""
+    return bool(_HEADING_LINE.match(ln))
 
 
 class C10(DocProp):
